@@ -33,6 +33,8 @@ Definition fwh_open (path:fname) : M (ofile * list byte) :=
   let* hl := read_at path 0 2 in
   let header_len := le_dec hl in
   let* header := read_at path user_header_starts header_len in
+  let* total := file_len path in
+  if (total <? header_len + user_header_starts)%N then fail EOther else     (* the fix: torn inside the header *)
   ret ({| of_name := path; of_off := (header_len + user_header_starts)%N |}, header).
 
 (* OffsetFile: data_len_bytes / set_len / reads relative to the offset *)
